@@ -150,6 +150,12 @@ fn find_start_marker(
             } else {
                 continue;
             }
+        } else if matches!(marker, StartMarker::Comment)
+            && bytes[m.end()..].starts_with(syntax_config.comment_delimiters().1.as_bytes())
+        {
+            // an empty comment: what follows is the end delimiter (which may begin
+            // with `-` or `+` itself), not a whitespace marker
+            Whitespace::Default
         } else {
             Whitespace::from_byte(bytes.get(m.start() + m.len()).copied())
         };
@@ -282,14 +288,19 @@ fn skip_basic_tag(
         ptr = rest;
     }
 
-    let ws = if let Some(rest) = ptr.strip_prefix('-') {
-        ptr = rest;
-        Whitespace::Remove
-    } else if let Some(rest) = ptr.strip_prefix('+') {
-        ptr = rest;
-        Whitespace::Preserve
-    } else {
-        Whitespace::Default
+    // a `-` or `+` is only a whitespace marker if the end delimiter follows it;
+    // otherwise it belongs to an end delimiter like `-->` itself.
+    let ws = match ptr.strip_prefix(['-', '+']) {
+        Some(rest) if rest.starts_with(block_end) => {
+            let ws = if ptr.starts_with('-') {
+                Whitespace::Remove
+            } else {
+                Whitespace::Preserve
+            };
+            ptr = rest;
+            ws
+        }
+        _ => Whitespace::Default,
     };
 
     ptr.strip_prefix(block_end)
@@ -686,9 +697,13 @@ impl<'s> Tokenizer<'s> {
             StartMarker::Comment => {
                 if let Some(end) = memstr(&self.rest_bytes()[skip..], self.comment_end().as_bytes())
                 {
-                    let ws = Whitespace::from_byte(
-                        self.rest_bytes().get(end.saturating_sub(1) + skip).copied(),
-                    );
+                    // an empty comment body has no room for a marker in front of
+                    // the end delimiter
+                    let ws = if end == 0 {
+                        Whitespace::Default
+                    } else {
+                        Whitespace::from_byte(self.rest_bytes().get(end - 1 + skip).copied())
+                    };
                     self.advance(end + skip + self.comment_end().len());
                     self.handle_tail_ws(ws);
                     Ok(ControlFlow::Continue(()))
